@@ -63,12 +63,13 @@ const (
 )
 
 type CaseCfg struct {
-	Family   int
-	MaxDocs  int
-	MaxDepth int  // merge tree depth (0: built only)
-	MaxIn    int  // max inputs of one merge
-	NoBig    bool // block family: no multi-MiB stored values (merging such a block document by document decompresses it once per document: too slow for fault enumeration and the race detector)
-	HoldAny  bool // draw built / loaded-mem / loaded-file; otherwise built (leaves) and loaded-mem (merges)
+	Family    int
+	MaxDocs   int
+	MaxDepth  int  // merge tree depth (0: built only)
+	MaxIn     int  // max inputs of one merge
+	NoBig     bool // block family: no multi-MiB stored values (merging such a block document by document decompresses it once per document: too slow for fault enumeration and the race detector)
+	TailField bool // FamDVGaps: may add the DV-less last field of DVGapsParams.Tail (C12Wide only; other users keep their draws)
+	HoldAny   bool // draw built / loaded-mem / loaded-file; otherwise built (leaves) and loaded-mem (merges)
 }
 
 // maxChunks computes, for the expectation and chunk mode, the largest number
@@ -235,6 +236,9 @@ func GenLeaf(t *rapid.T, ctx *Ctx, sc *Scenario, cfg CaseCfg, label string) (*Se
 		b, desc = p.Batch(sc), p.String()
 	case FamDVGaps:
 		p := GenDVGaps(t)
+		if cfg.TailField {
+			p.Tail = rapid.Bool().Draw(t, "dvTailField")
+		}
 		b, desc = p.Batch(sc), p.String()
 	case FamTerms:
 		b = manyTermsBatch(t, label)
